@@ -64,9 +64,15 @@ def draw(desc: dict, mode: str, modes: list[str], n: int, seed: int) -> dict:
         config = GenerationConfig(modes=[gm[m] for m in modes], allow_x00=bool(cfg["allow_x00"]), codec={"none": None, "latin-1": "iso8859-1"}.get(cfg["codec"], cfg["codec"]),
                                   with_security_parameters=bool(cfg.get("security")))
         kwargs: dict = {}
-        if cfg.get("explicit"):     # the caller fixes q1 (a conforming value); the rest of the location must be generated around it
+        if cfg.get("explicit") == "declared":     # the caller fixes q1 (a conforming value); the rest of the location must be generated around it
             q1 = next(p for p in op_decl["params"] if p["loc"] == "query" and uncps(p["name"]) == "q1")
             kwargs["query"] = {"q1": 2 if q1["schema"].get("type") == ["integer"] else "ab"}
+        elif cfg.get("explicit") == "undeclared":  # as many undeclared keys as the location declares parameters (-H "Authorization: ..")
+            for loc, container in (("query", "query"), ("header", "headers")):
+                n_declared = sum(1 for p in op_decl["params"] if p["loc"] == loc)
+                if n_declared:
+                    names = ["Authorization", "X-Trace"] if loc == "header" else ["debug", "trace"]
+                    kwargs[container] = {name: "x1" for name in names[:n_declared]}
         strategy = operation.as_strategy(generation_mode=gm[mode], generation_config=config, **kwargs)
     except Exception as exc:
         out["outcome"], out["error"] = "error", "setup:%s:%s" % (type(exc).__name__, str(exc)[:160])
